@@ -133,7 +133,7 @@ def snapshot(block):
 # the oracle: unrolling + symbolic register machine + interval interference
 # ------------------------------------------------------------------------------------------------
 class Run:
-    """One unrolled execution.  insts[i] = [vid, term, reg, root, def_event, last_read_event, role]."""
+    """One unrolled execution.  insts[i] = [vid, term, reg, root, def_event, last_read_event, role, vid of last reader]."""
 
     def __init__(self, struct, regs, pre, K, zero, strict, getreg_in):
         self.regs, self.pre, self.K, self.zero, self.strict = regs, pre, K, zero, strict
@@ -161,7 +161,7 @@ class Run:
 
     def mk(self, vid, term, role, root=None):
         i = len(self.insts)
-        self.insts.append([vid, term, self.regs[vid], i if root is None else root, self.ev, -1, role])
+        self.insts.append([vid, term, self.regs[vid], i if root is None else root, self.ev, -1, role, vid])
         self.cur[vid] = i
         return i
 
@@ -171,8 +171,9 @@ class Run:
 
     def read(self, vid, opname, slot):
         i = self.cur[vid]
-        _, term, reg, root, _, _, _ = self.insts[i]
+        _, term, reg, root = self.insts[i][:4]
         self.insts[root][5] = self.ev
+        self.insts[root][7] = vid
         self.reads += 1
         if reg is None:
             if self.strict:
@@ -301,7 +302,7 @@ class Run:
     def conflicts(self):
         by_reg: dict = {}
         out = []
-        for idx, (vid, term, reg, root, d, l, role) in enumerate(self.insts):
+        for idx, (vid, term, reg, root, d, l, role, _via) in enumerate(self.insts):
             if root != idx or reg in (None, "?"):
                 continue
             if reg == self.zero:
@@ -341,6 +342,47 @@ def _struct_sig(struct):
     return (bargs, tuple((n, k, o, r, None if b is None else _struct_sig(b)) for n, k, o, r, b in ops))
 
 
+def _facts(struct):
+    """uses[vid], defining op name of every value, loop role of every value that takes part in a riscv_scf.for."""
+    uses: dict = {}
+    defop: dict = {}
+    role: dict = {}
+    dup = [False]
+
+    def walk(blk, inbody):
+        bargs, ops = blk
+        for name, key, operands, results, body in ops:
+            for o in operands:
+                uses[o] = uses.get(o, 0) + 1
+            for r in results:
+                defop[r] = name
+                if inbody:
+                    role.setdefault(r, "for.body")
+            if name == "riscv_scf.for":
+                dyn = key == "dyn"
+                inits = operands[3:] if dyn else operands[2:]
+                for o in operands[: 3 if dyn else 2]:
+                    role.setdefault(o, "for.bound")
+                for o in inits:
+                    role[o] = "for.init"
+                role[body[0][0]] = "for.iv"
+                for c in body[0][1:]:
+                    role[c] = "for.carried"
+                for r in results:
+                    role[r] = "for.result"
+                yops = body[1][-1][2]
+                for y, c, i0 in zip(yops, body[0][1:], inits):
+                    if y == c or y == i0:
+                        dup[0] = True
+            if body is not None:
+                walk(body, True)
+
+    for a in struct[0]:
+        defop[a] = "arg"
+    walk(struct, False)
+    return uses, defop, role, dup[0]
+
+
 def judge(target, strategy, s_before, regs_before, s_after, regs_after, allowed, infinite, reserved, zero):
     """Compare allocated IR with the input.  Returns list of (sig, what, detail) and number of comparisons."""
     out = []
@@ -349,7 +391,28 @@ def judge(target, strategy, s_before, regs_before, s_after, regs_after, allowed,
     pre = [r is not None for r in regs_before]
     if not same:
         pre = [False] * len(regs_after)
-    Ks = (0, 1, 2) if _has_for(s_after) else (0,)
+    uses, defop, role, _ = _facts(s_after)
+    has_for = _has_for(s_after)
+    Ks = (0, 1, 2) if has_for else (0,)
+    pre_regs = {r for r in regs_before if r not in (None, "?")}
+    # registers that the input pre-allocates only to unused results of get_register ops
+    holders: dict = {}
+    if same:
+        for vid, r in enumerate(regs_before):
+            if r not in (None, "?"):
+                holders.setdefault(r, []).append(vid)
+    dead_get = {r for r, hs in holders.items()
+                if all(defop.get(h, "").endswith("get_register") and not uses.get(h) for h in hs)}
+
+    def cause(reg, loopclass):
+        if reg in dead_get:
+            return "register-of-unused-get_register"
+        if reg in pre_regs:
+            return "preallocated-register-reused"
+        if has_for:
+            return "loop|" + loopclass
+        return None
+
     # ---- (2) registers handed out
     if same:
         for vid, (rb, ra) in enumerate(zip(regs_before, regs_after)):
@@ -358,7 +421,8 @@ def judge(target, strategy, s_before, regs_before, s_after, regs_after, allowed,
                 if ra != rb:
                     out.append((f"C19|{target}|preallocated-changed",
                                 f"a value pre-allocated to {rb} is in {ra} after allocation", {"value": vid}))
-            elif ra is not None and ra not in allowed and ra != zero:
+            elif ra is not None and ra not in allowed and ra != zero and ra not in pre_regs:
+                # (a register that the input pre-allocates may reach further values through a tie)
                 if infinite and (ra.startswith("j_") or ra.startswith("fj_") or ra.startswith("inf_")):
                     continue
                 if ra in reserved:
@@ -367,12 +431,10 @@ def judge(target, strategy, s_before, regs_before, s_after, regs_after, allowed,
                 else:
                     out.append((f"C19|{target}|register-outside-pool",
                                 f"the allocator handed out {ra}, which is not in its register pool", {"value": vid}))
-    before_sinks = {}
     for K in Ks:
         rb_run = None
         if same:
             rb_run = Run(s_before, regs_before, pre, K, zero, False, None)
-            before_sinks[K] = rb_run.sinks
         run = Run(s_after, regs_after, pre, K, zero, True, rb_run.getreg if rb_run else None)
         evals += run.reads + len(run.insts)
         for nm in run.unknown:
@@ -397,7 +459,8 @@ def judge(target, strategy, s_before, regs_before, s_after, regs_after, allowed,
             d = dict(m)
             d["expected"], d["found"] = _term_str(m["expected"]), _term_str(m["found"])
             d["K"] = K
-            out.append((f"C19|{target}|{mid}|clobbered-live-value|{wr}",
+            c = cause(m["register"], "read-of-" + role.get(m["value"], "value-defined-outside"))
+            out.append((f"C19|{target}|{mid}|clobbered-live-value|{c or wr}",
                         f"{m['reader']} reads {m['register']} expecting {d['expected']} but the register holds "
                         f"{d['found']} (written by {wr})", d))
             break
@@ -408,14 +471,17 @@ def judge(target, strategy, s_before, regs_before, s_after, regs_after, allowed,
                 out.append((f"C19|{target}|{strategy}|non-constant-zero-value-in-zero-register",
                             f"value defined by {a[6]} = {_term_str(a[1])} was placed in the zero register", {"K": K}))
                 continue
-            roles = {a[6], b[6]}
-            inout = target == "x86" and any(SEM.get(r, (None, None))[1] is not None for r in roles)
-            loopy = any(r.startswith("for.") for r in roles) or (len(Ks) > 1 and any(
-                x[0] == "riscv_scf.for" and (a[0] in x[2] or b[0] in x[2]) for x in s_after[1]))
+            inout = target == "x86" and any(SEM.get(r, (None, None))[1] is not None for r in (a[6], b[6]))
             mid = "inout" if inout else strategy
-            sig = f"C19|{target}|{mid}|two-live-values-share-register"
-            if loopy:
-                sig += "|loop"
+            ra, rb_ = role.get(a[0]), role.get(b[0])
+            if role.get(a[7]) == "for.carried" and rb_ == "for.body":
+                lc = "carried-value-read-after-next-value-defined"
+            elif ra == "for.init":
+                lc = "init-operand-live-across-loop"
+            else:
+                lc = f"{ra or 'outside'}~{rb_ or 'outside'}"
+            c = cause(a[2], lc)
+            sig = f"C19|{target}|{mid}|two-live-values-share-register" + (f"|{c}" if c else "")
             out.append((sig, f"{_term_str(a[1])} (defined by {a[6]}) and {_term_str(b[1])} (defined by {b[6]}) are "
                              f"live at the same time and both in {a[2]}",
                         {"K": K, "register": a[2], "values": [a[0], b[0]]}))
@@ -667,7 +733,8 @@ def check_case(st: Stats, target, prog, mode, legalize=False):
     s_after, regs_after, dangling = snapshot(fn.body.block)
     if dangling:
         st.outcomes["VIOLATION allocated:ir-broken"] += 1
-        _violate(st, f"C19|{target}|{strategy}|dangling-operand-after-allocation|{dangling[0]}",
+        kind = "riscv_scf.for-yields-its-block-argument-or-init" if _facts(s_before)[3] else dangling[0]
+        _violate(st, f"C19|{target}|{strategy}|dangling-operand-after-allocation|{kind}",
                  f"allocation succeeded but an operand of {dangling[0]} refers to a value that is no longer "
                  f"defined in the function (stale block argument / result)", dict(wit, ir_after=str(fn)[:1500]))
         return "ir-broken"
@@ -770,9 +837,13 @@ def rv_for_choices(info, cfg):
         for y in ys:
             bodies.append(((b,), y))
     if cfg["for_body2"]:
-        for b1 in one:
-            for b2 in opsover(inner_all + [n + 2]):
-                if (n + 2) not in b2[1:] and cfg["for_body2"] == "dependent":
+        # "dependent": the second op reads the first one's result; "carried-only": additionally the first op reads
+        # nothing but the carried value and the second nothing but the carried value and the first result
+        firsts = opsover([car]) if cfg["for_body2"] == "carried-only" else one
+        for b1 in firsts:
+            avail = [car, n + 2] if cfg["for_body2"] == "carried-only" else inner_all + [n + 2]
+            for b2 in opsover(avail):
+                if (n + 2) not in b2[1:]:
                     continue
                 for y in (n + 2, n + 3, car):
                     bodies.append(((b1, b2), y))
@@ -893,12 +964,16 @@ def x86_programs(cfg, args, first=None):
 # ------------------------------------------------------------------------------------------------
 def _shard(task) -> Stats:
     st = Stats()
-    quick, ci, args, first, seed = task
+    quick, ci, args, first, part, parts, seed = task
     cfgs = configs(quick)
     name, cfg = cfgs[ci]
     n = 0
+    idx = -1
     if cfg["target"] == "riscv":
         for ops, info in rv_programs(cfg, args, first):
+            idx += 1
+            if idx % parts != part:      # the subtree of one first op is dealt round-robin to `parts` tasks
+                continue
             st.transitions += 1
             has_for = any(o[0] == "for" for o in ops)
             visible = [i for i, (c, _) in enumerate(info) if c != "x"]
@@ -935,6 +1010,9 @@ def _shard(task) -> Stats:
                     st.sample({"target": "riscv", "prog": prog})
     else:
         for ops in x86_programs(cfg, args, first):
+            idx += 1
+            if idx % parts != part:
+                continue
             st.transitions += 1
             prog = (args, ops, ())
             st.states += 1
@@ -990,7 +1068,7 @@ def _selftest():
     # step/ub (%0) share t0 with the carried value: clobbered in the first iteration
     bad, _ = judge("riscv", "S", ls, n5, ls, ["t0", "t1", "t0", "t0", "t0"], {"t0", "t1", "t2"}, False,
                    RV_RESERVED, "zero")
-    assert any("clobbered" in b[0] for b in bad) and any(b[0].endswith("share-register|loop") for b in bad), bad
+    assert any("clobbered" in b[0] for b in bad) and any("share-register|loop|" in b[0] for b in bad), bad
     good, _ = judge("riscv", "S", ls, n5, ls, ["t0", "t1", "t2", "t2", "t2"], {"t0", "t1", "t2"}, False,
                     RV_RESERVED, "zero")
     assert any("loop-carried-registers-differ" in b[0] for b in good), good   # init %0 in t0, carried in t2
@@ -1026,35 +1104,43 @@ def configs(quick: bool):
     rv = {"target": "riscv", "modes": POOLS, "pass_modes": PASS_MODES, "pass_nops": 0, "pass_nops_all": 0,
           "min_nops": 1, "ret_max": 1, "for": False, "for_li": False, "for_exotic_yield": False, "for_body2": False,
           "for_bounds": "reduced", "for_steps": "all", "for_body_ops": ("mv", "addi", "add"), "for_min_prefix": 1,
-          "for_max_suffix": 1}
-    x86 = {"target": "x86", "modes": POOLS + (("pass", "default"),), "x86_getpre": True, "x86_addi": True,
+          "for_max_suffix": 1, "parts": 1}
+    x86 = {"target": "x86", "parts": 1, "modes": POOLS + (("pass", "default"),), "x86_getpre": True, "x86_addi": True,
            "nops_by_args": {}}
     one = ((), ("u",), ("a0",))
     two = (("u", "u"), ("a0", "a1"))
     if quick:
         return [
-            ("rv-int-3", dict(rv, args=ARGS_RV, alphabet=A7, nops=3)),
+            ("rv-int-3", dict(rv, args=((), ("u",), ("a0",)), alphabet=A7, nops=3)),
+            ("rv-int-3b", dict(rv, args=(("u", "u"), ("a0", "a1")), alphabet=A5, nops=3)),
             ("rv-int-4", dict(rv, args=((),), alphabet=A7, nops=4, min_nops=4)),
-            ("rv-int-4u", dict(rv, args=(("u",),), alphabet=A4, nops=4, min_nops=4)),
+            ("rv-int-4u", dict(rv, args=(("u",),), alphabet=A4, nops=4, min_nops=4, parts=2)),
             ("rv-wide-2", dict(rv, args=ARGS_RV, alphabet=A10, nops=2, ret_max=2, pass_nops=2, pass_nops_all=2)),
             ("rv-float", dict(rv, args=one, alphabet=("li5", "float"), nops=4)),
             ("rv-for", dict(rv, args=((),), alphabet=("li5", "mv", "add"), nops=3, **{"for": True},
-                            for_steps="static-or-last", for_body_ops=("addi", "add"))),
+                            for_steps="static-or-last", for_body_ops=("addi", "add"), for_body2="carried-only", parts=8)),
             ("rv-for-u", dict(rv, args=(("u",),), alphabet=("li5", "mv", "add"), nops=2, **{"for": True},
-                              for_steps="static-or-last", for_body_ops=("addi", "add"))),
+                              for_steps="static-or-last", for_body_ops=("addi", "add"), for_body2="carried-only", parts=3)),
             ("x86", dict(x86, args=((), ("u",), ("rdi",), ("rdi", "rsi")), nops=3, nops_by_args={(): 4},
-                         x86_addi=False, modes=(("pool", 2), ("pool", 3), ("pass", "default")))),
+                         x86_addi=False, modes=(("pool", 2), ("pool", 3), ("pass", "default")), parts=2)),
         ]
     return [
-        ("rv-int-4", dict(rv, args=one, alphabet=A7, nops=4)),
+        ("rv-int-4", dict(rv, args=one, alphabet=A7, nops=4, parts=4)),
         ("rv-int-3", dict(rv, args=two, alphabet=A7, nops=3)),
-        ("rv-int-4b", dict(rv, args=two, alphabet=A5, nops=4, min_nops=4)),
-        ("rv-int-5", dict(rv, args=((),), alphabet=A5, nops=5, min_nops=5)),
-        ("rv-wide-3", dict(rv, args=ARGS_RV, alphabet=A10, nops=3, ret_max=2, pass_nops=3, pass_nops_all=2)),
+        ("rv-int-4b", dict(rv, args=two, alphabet=A5, nops=4, min_nops=4, parts=8)),
+        ("rv-int-5", dict(rv, args=((),), alphabet=A5, nops=5, min_nops=5, parts=8)),
+        ("rv-wide-3", dict(rv, args=ARGS_RV, alphabet=A10, nops=3, ret_max=2, pass_nops=3, pass_nops_all=2,
+                           parts=4)),
         ("rv-float", dict(rv, args=one, alphabet=("li5", "float"), nops=5)),
-        ("rv-for", dict(rv, args=((), ("u",)), alphabet=("li5", "mv", "add"), nops=3,
-                        **{"for": True, "for_li": True, "for_exotic_yield": True, "for_body2": "dependent"})),
-        ("x86", dict(x86, args=ARGS_X86, nops=3, nops_by_args={(): 4, ("u",): 4, ("rdi",): 4})),
+        ("rv-for", dict(rv, args=((),), alphabet=("li5", "mv", "add"), nops=3,
+                        **{"for": True, "for_li": True, "for_exotic_yield": True, "for_body2": "dependent",
+                           "parts": 48})),
+        ("rv-for-u", dict(rv, args=(("u",),), alphabet=("li5", "mv", "add"), nops=2,
+                          **{"for": True, "for_li": True, "for_exotic_yield": True, "for_body2": "dependent",
+                             "parts": 16})),
+        ("rv-for-u3", dict(rv, args=(("u",),), alphabet=("li5", "mv", "add"), nops=3, min_nops=3,
+                           **{"for": True, "for_li": True, "for_steps": "static-or-last", "parts": 24})),
+        ("x86", dict(x86, args=ARGS_X86, nops=3, nops_by_args={(): 4, ("u",): 4, ("rdi",): 4}, parts=6)),
     ]
 
 
@@ -1067,13 +1153,18 @@ def make_tasks(ctx):
             else:
                 firsts = list(rv_choices([("i", a == "u") for a in args], cfg))
             for first in firsts:
-                tasks.append((ctx.quick, ci, args, first, ctx.seed))
+                for part in range(cfg["parts"]):
+                    tasks.append((ctx.quick, ci, args, first, part, cfg["parts"], ctx.seed))
     return tasks
 
 
 def run(ctx):
     _selftest()
     tasks = make_tasks(ctx)
+    cfgs = configs(ctx.quick)
+    # longest programs first so the pool drains evenly (order does not influence any result)
+    tasks.sort(key=lambda t: -(cfgs[t[1]][1]["nops_by_args"].get(t[2], cfgs[t[1]][1]["nops"])
+                               if cfgs[t[1]][1]["target"] == "x86" else cfgs[t[1]][1]["nops"] + 2 * cfgs[t[1]][1]["for"]))
     best: dict = {}
     for _, st in pmap(_shard, tasks):
         for sig, v in st.violations.items():
